@@ -76,7 +76,7 @@ def cache[**Args, Result](
                 ),
             )
 
-    if function := function:
+    if function is not None:
         return _wrap(function)
 
     else:
